@@ -176,7 +176,7 @@ def converter_cases(ctx, u):
     temps = list(t["temperature_units"]) + ["f"]
     press = list(t["pressure_units"]) + ["bar"]
     full = []
-    for _ in range(ctx.pick(1500, 40000)):
+    for _ in range(ctx.pick(2500, 40000)):
         dec = lambda lo, hi, p: Fraction(rng.randint(lo, hi), 10 ** p)  # noqa: E731
         full.append(dict(
             input_quantity=dec(0, 10 ** 5, rng.randint(0, 3)),
@@ -317,7 +317,7 @@ def classify_unit_violation(metric, increment, rel):
 def run_rate_sources(ctx, G, M, u, tmp):
     t = u["tables"]
     secs, grams, m3 = unit_defs(u)
-    rounds = ctx.pick(3, 25)
+    rounds = ctx.pick(4, 30)
     k = ctx.pick(12, 30)
     lines, checks = [], []
     for r in range(rounds):
@@ -393,10 +393,10 @@ def gen_cases(ctx):
     rng = ctx.rng
     cases = []
     ps = [0.0, 1.0, 0.5, 0.5, 0.3, 0.8, 0.1]
-    for _ in range(ctx.pick(22000, 300000)):
+    for _ in range(ctx.pick(45000, 600000)):
         cases.append((rng.randint(0, 5), rng.random() < 0.4, rng.random() < 0.7, rng.randint(1, 8),
                       rng.choice(ps), rng.randrange(2 ** 31), rng.random() < 0.7, rng.random() < 0.8))
-    for _ in range(ctx.pick(600, 8000)):
+    for _ in range(ctx.pick(800, 15000)):
         dur = rng.choice([1, 7, 30, 90, 365, rng.randint(1, 500)])
         cases.append((dur, rng.random() < 0.4, rng.random() < 0.7, rng.choice([1, 30, 365, 730, rng.randint(1, 900)]),
                       rng.choice([0.0, 1.0, 0.0065, 0.05, 0.5, rng.random()]), rng.randrange(2 ** 31),
